@@ -492,6 +492,32 @@ run_hop(void *argp)
 		vs_fail("harness:setup", "raw PAIR1 peer could not connect");
 	vp_rd *rd = calloc(1, sizeof(*rd));
 	int    n_del = 0, n_drop = 0, n_disc = 0, n_zero = 0;
+	{
+		// a second raw connection while the first is alive is refused and
+		// carries nothing
+		int fd2 = vp_attach_more(l);
+		if (fd2 < 0)
+			vs_fail("harness:setup", "attach_more failed");
+		vs_settle();
+		int     hs = vp_handshake(fd2, SP_PAIR1);
+		uint8_t h1[4], x[5] = "XXXXX";
+		vp_put32(h1, 1);
+		(void) vp_send(fd2, h1, 4, x, 5);
+		vs_settle();
+		int      rv;
+		nng_msg *m = recv_nb(s, &rv);
+		if (m != NULL)
+			vs_fail("C08:second-peer", "a message from a second connection "
+			    "was delivered while the first peer was attached");
+		if (hs >= 0 && !vp_is_eof(fd2))
+			vs_fail("C08:second-peer", "a second connection was not refused "
+			    "(still open) while the first peer was attached");
+		if (vp_is_eof(fd))
+			vs_fail("C08:second-peer", "the first peer was disconnected when "
+			    "a second one connected");
+		close(fd2);
+		vs_settle();
+	}
 	int    first = bi * BATCH, last = first + BATCH;
 	if (last > nhop)
 		last = nhop;
@@ -760,12 +786,11 @@ main(int argc, char **argv)
 	static hoparg hcooked = { 0 }, hraw = { 1 };
 	explore_hop("pair1-hop-cooked", &hcooked);
 	explore_hop("pair1-hop-rawmode", &hraw);
-	vx_note("hop", "%d hop-header cases (0..%s, every 2^k and 2^k+-1, top "
-	    "values, small hop under high garbage bits, frames of 0..3 bytes) x "
-	    "MAXTTL %s, each on a fresh raw connection, %d cases per execution; "
-	    "cooked and raw-mode PAIR1 socket (raw mode also checks hop+1 on "
-	    "forwarding); the 32-bit space is covered by the branch-boundary "
-	    "classes of pair1_pipe_recv_cb, not value by value",
+	vx_note("hop", "%d header cases (0..%s, 2^k and 2^k+-1, top values, small "
+	    "hop under high garbage bits, 0..3-byte frames) x MAXTTL %s, fresh raw "
+	    "connection each, %d per execution; cooked + raw-mode socket (hop+1 on "
+	    "forwarding); 32-bit space covered by boundary classes of "
+	    "pair1_pipe_recv_cb, not value by value",
 	    nhop, T ? "0x1ff" : "20", T ? "1..15" : "{1,2,3,8,15}", BATCH);
 
 	// (1) sequences.  Seeded start states: both directions saturated; C
@@ -786,7 +811,7 @@ main(int argc, char **argv)
 			explore_seq("sat-c0", &SQ[p][2], 3, 3, 1);
 			explore_seq("sat-c1", &SQ[p][3], 3, 3, 1);
 			explore_seq("third-c0", &SQ[p][4], 3, 3, 1);
-			explore_seq("init-c0", &SQ[p][0], 5, 4, 0.2);
+			explore_seq("init-c0", &SQ[p][0], 5, 4, 0.35);
 		}
 	} else {
 		for (int p = 0; p < 2; p++) {
@@ -801,20 +826,20 @@ main(int argc, char **argv)
 		explore_seq("init-c0", &SQ[1][0], 7, 5, (g_cap - used()) / g_cap * 0.9);
 	}
 	vx_note("alphabet",
-	    "%d letters: sendA sendB recvA recvB (non-blocking, tagged) third (a "
-	    "third socket C of the same protocol dials A - first use - / C's "
-	    "10 ms redial timer fires; then C sends and receives) sbufA rbufA "
-	    "(next size in the cycle c0: 1->2->0->1, c1: 1->0->2->1); seeded "
-	    "prefixes: both directions saturated, C knocking from the start; "
-	    "epilogue: drain, one more message each way, drain",
+	    "%d letters: sendA sendB recvA recvB (non-blocking, tagged) third (C "
+	    "of the same protocol dials A / C's 10 ms redial fires; C sends and "
+	    "receives) sbufA rbufA (next size in cycle c0 1-2-0 / c1 1-0-2); "
+	    "epilogue: drain, one message each way, drain",
 	    L_N);
+	vx_note("scenarios", "pair0 and pair1, A listens inproc, B dials; seeded "
+	    "prefixes: sat (both directions saturated), third (C knocking from "
+	    "the start); C dials blocking in c1/sat-c0 runs, NONBLOCK otherwise");
 	vx_note("depths", "%s (thorough depths chosen from the measured execution "
 	    "rate to keep the tier under ~%d s)", g_depths, (int) g_cap);
 	vx_note("oracle",
 	    "sequences: invariants (second-peer via ADD_POST/REM_POST ledger and "
 	    "sender byte, order, duplicate, phantom, ownership, conservation after "
-	    "drain; a buffer shrink on A may discard at most the messages that no "
-	    "longer fit); hop: exact prediction per class, hop==ttl is delivered "
-	    "('exceeds' is strict), hop 0 unspecified");
+	    "drain; a shrink of A's buffers may discard at most what no longer "
+	    "fits); hop: exact per class, hop==ttl delivered, hop 0 unspecified");
 	return vx_finish();
 }
